@@ -272,10 +272,23 @@ def run_mal(ctx, label, beh, server, par=8):
     ctx.log("malformed %s: %d inputs (%d operators) %s, %d bystander checks, %d process deaths, %d disagreements"
             % (label, st["cases"], st["distinct_operators"], json.dumps(st["cases_by_specified_outcome"], sort_keys=True),
                st["bystander_checks"], st["process_deaths"], len(mism)))
+    framing = 0
     for m in mism:
+        if m["what"] == "malformed-vs-spec":
+            # The specification frames malformed input as the code does today (how many replies, whether the connection is
+            # closed or keeps waiting).  The statement demands less: no crash, other connections unaffected, "answered with
+            # an error or that connection is closed" - a parser that closes where today's answers an error (or the other
+            # way round, or tolerates the input) still satisfies it.  Such differences are recorded, not judged; a dead
+            # process and a silent bystander are the verdicts of this stage.
+            framing += 1
+            if framing == 1:
+                ctx.log("%s: framing of a malformed input differs from the as-coded specification (recorded, not judged): %s"
+                        % (label, ("input %s: %s (got %s)" % (m["stream"], m["detail"], m.get("got")))[:500]))
+            continue
         text = "stage=%s %s: input %s: %s (got %s)" % (label, m["what"], m["stream"], m["detail"], m.get("got"))
         with _lock:
             common.report(ctx, rname(label), text, {"kind": "mal", "stage": label, "line": m["group"], "mismatch": {k: m[k] for k in ("what", "detail")}})
+    st["framing_differs_from_spec"] = framing
     if st["cases"] == 0 or st["bystander_checks"] == 0:
         raise common.Infra("stage %s compared nothing (vacuous)" % label)
     return st, js
@@ -426,6 +439,7 @@ def run(ctx):
             "bystander_checks": res["mal"][0]["bystander_checks"] + res["malsim"][0]["bystander_checks"],
             "liveness_checks": res["mal"][0]["liveness_checks"] + res["malsim"][0]["liveness_checks"],
             "process_deaths": res["mal"][0]["process_deaths"] + res["malsim"][0]["process_deaths"],
+            "inputs_framed_differently_from_the_as_coded_specification_not_judged": res["mal"][0].get("framing_differs_from_spec", 0) + res["malsim"][0].get("framing_differs_from_spec", 0),
             "reply_frames_compared": res["mal"][0]["reply_frames_compared"] + res["malsim"][0]["reply_frames_compared"],
             "as_coded_deviation_refuted_by_TLC": "NegBulk=index with Panics=crash (before the fix) violates %s" % res["ascoded"],
         },
